@@ -161,6 +161,11 @@ def obligations(tier):
         obs.append(Ob("history/" + "-".join(h), __name__, "mk", {"steps": list(h)}, timeout=900, twins=_twins(h), group="k2"))
     for h in _H3:
         obs.append(Ob("history/" + "-".join(h), __name__, "mk", {"steps": list(h)}, timeout=1200, twins=_twins(h), group="k3"))
+    # the ParameterController layer (own module: no priming / time stubs of this module are needed there)
+    obs.append(Ob("scope_history/steps1", "props.c07_scope", "mk_history", {"nsteps": 1}, timeout=900, twins=("end", "postponed"), group="scope"))
+    T = tier == "thorough"
+    for m in range(1, 8):
+        obs.append(Ob(f"scope_history/steps2/first{m:03b}", "props.c07_scope", "mk_history", {"nsteps": 2, "nvalues": 3 if T else 2, "first_independent": T, "first_mask": m}, timeout=3600, twins=("end", "postponed"), group="scope"))
     return obs
 
 
